@@ -205,6 +205,8 @@ class Ctx:
         self.notes = []  # free-form path notes
         self.target = explorer.target
         self.ghost = {}
+        self.lits = {}
+        self._keep = []
 
     # -- naming -------------------------------------------------------------------------
     def fresh(self, base):
@@ -247,10 +249,21 @@ class Ctx:
             return True
         if z3.is_false(cond):
             return False
+        # a condition that was already decided on this path (syntactically the same term) keeps its value; this is
+        # what keeps repeated evaluations of one quantified condition consistent (they are not in the qf solver)
+        known = self.lits.get(cond.get_id())
+        if known is not None:
+            return known
         if self.pos < len(self.decisions):
             choice = self.decisions[self.pos]
+            if self.explorer.cond_log is not None:
+                want = self.explorer.cond_log.get((tuple(self.decisions[: self.pos])))
+                if want is not None and want[:40] != str(cond)[:40]:
+                    raise CheckerFault(f"replay misaligned at {self.pos}: expected branch on {want!r}, got {str(cond)[:200]!r}")
             self.pos += 1
         else:
+            if self.explorer.cond_log is not None:
+                self.explorer.cond_log[tuple(self.decisions)] = str(cond)[:200]
             can_t = self.feasible(cond)
             can_f = self.feasible(z3.Not(cond))
             if can_t and can_f:
@@ -265,6 +278,8 @@ class Ctx:
             self.decisions.append(choice)
             self.pos += 1
         lit = cond if choice else z3.Not(cond)
+        self.lits[cond.get_id()] = choice
+        self._keep.append(cond)  # keep the AST alive so that its id is not reused
         self.pc.append(lit)
         self.qsolver.add(lit)
         return choice
@@ -305,6 +320,8 @@ class Ctx:
             status, backend, secs, model = check_valid(self.pc, goal)
         detail = ""
         wit = None
+        if os.environ.get("PYVC_DEBUG_FAIL") and status != "discharged":
+            print(f"[prove-fail] {full} -> {status}\n  goal={goal}\n  pc=" + "\n     ".join(str(c)[:300] for c in self.pc) + f"\n  model={model}", flush=True)
         if os.environ.get("PYVC_DEBUG"):
             print(f"[prove] {full} -> {status} ({backend}, {secs:.2f}s) goal={str(goal)[:400]}", flush=True)
         if status == "refuted":
@@ -368,6 +385,13 @@ class _SolverPair:
 
     def feasible(self, cond=None):
         r = self.qf.check() if cond is None else self.qf.check(cond)
+        if r == z3.unknown and (cond is None or not has_quant(cond)):
+            # a quantifier-free query must not be decided by a timeout: retry without a limit
+            self.qf.set("timeout", 60000)
+            r = self.qf.check() if cond is None else self.qf.check(cond)
+            self.qf.set("timeout", FEAS_TIMEOUT_MS)
+            if os.environ.get("PYVC_DEBUG"):
+                print(f"[feasible] retried a quantifier-free query: {r}", flush=True)
         if r == z3.unsat:
             return False
         if self.full is None or self.nquant == 0:
@@ -382,6 +406,7 @@ class Explorer:
     def __init__(self, target, ledger=None, max_paths=5000, quant_feas=False):
         self.target = target
         self.quant_feas = quant_feas
+        self.cond_log = {} if os.environ.get("PYVC_CHECK_REPLAY") else None
         self.ledger = ledger or Ledger()
         self.work = [[]]
         self.max_paths = max_paths
